@@ -1,7 +1,7 @@
 """C03 - reading never fails with anything but a YAML error (exception-class, guard and loop-termination clauses)."""
 import sys
 
-from sa import report, partial as P, rules_read as RD
+from sa import report, partial as P, rules_read as RD, rules_marks as RM
 
 FRONT = ['reader', 'scanner', 'parser', 'composer']
 
@@ -31,6 +31,8 @@ def run(ctx, repo):
     RD.r_token_shapes(ctx, repo)
     RD.r_loop_progress(ctx, repo)
     RD.r_sentinel_appended(ctx, repo)
+    RM.r_breakset_positions(ctx, repo)
+    RM.r_parser_stack_discipline(ctx, repo)
 
 
 if __name__ == '__main__':
